@@ -752,6 +752,45 @@ func (e *ruleEnv) instantiate(c map[string]interface{}) []*ruleText {
 			return []*ruleText{rt, rn}
 		}
 		return []*ruleText{rt}
+	case "twokeys":
+		rt := &ruleText{ast: newAst(), c07: true, cls: "twokeys"}
+		rt.ast.List, rt.ast.Action = "exit", "always"
+		rt.args = []string{"-a", "always,exit"}
+		if f := str("before"); f != "none" {
+			vc := "dec"
+			switch f {
+			case "uid", "auid", "gid", "obj_uid":
+				vc = "small"
+			case "exit":
+				vc = "pos"
+			case "perm":
+				vc = "wa"
+			case "filetype":
+				vc = "file"
+			case "saddr_fam":
+				vc = "two"
+			case "subj_user", "subj_role", "subj_type", "subj_sen", "subj_clr", "obj_user", "obj_role", "obj_type", "obj_lev_low",
+				"obj_lev_high", "exe", "path", "dir":
+				vc = "short"
+			}
+			arg, it, in07, _ := e.filterFor(f, "=", vc)
+			rt.c07 = in07
+			rt.args = append(rt.args, "-F", arg)
+			rt.ast.Items = append(rt.ast.Items, it)
+		}
+		nk := 0
+		for _, ch := range str("form") {
+			k := strings.ReplaceAll(e.word(1+r.Intn(8), false), ",", "_")
+			if ch == 'F' {
+				rt.args = append(rt.args, "-F", "key="+k)
+				rt.ast.Items = append(rt.ast.Items, strItem("key", "=", k))
+			} else {
+				nk++
+			}
+		}
+		e.syscallShape(rt, "all", "")
+		e.addKeys(rt, nk, false)
+		return []*ruleText{rt}
 	case "sysprefix":
 		rt := &ruleText{ast: newAst(), c07: true, cls: "sysprefix"}
 		rt.ast.List, rt.ast.Action = str("list"), actions[r.Intn(2)]
@@ -881,6 +920,14 @@ func (e *ruleEnv) randomRule() *ruleText {
 		rt.c07 = rt.c07 && in07
 		rt.args = append(rt.args, "-F", arg)
 		rt.ast.Items = append(rt.ast.Items, it)
+	}
+	if list != "exclude" && r.Intn(5) == 0 {
+		// a key given as a filter, anywhere among the others (and -k keys may follow): a string field like any other
+		k := strings.ReplaceAll(e.word(1+r.Intn(10), false), ",", "_")
+		j := r.Intn(len(rt.ast.Items) + 1)
+		rt.ast.Items = append(rt.ast.Items[:j], append([]astItem{strItem("key", "=", k)}, rt.ast.Items[j:]...)...)
+		at := 2 + 2*j
+		rt.args = append(rt.args[:at], append([]string{"-F", "key=" + k}, rt.args[at:]...)...)
 	}
 	if (list == "exit" || list == "task") && r.Intn(3) > 0 {
 		e.syscallShape(rt, []string{"all", "one", "many", "names64", "high", "none", "all_then", "then_all"}[r.Intn(8)], arch)
